@@ -29,6 +29,22 @@ Definition chk_update (srcErr : option cls) (r : rres) : option cls :=
             end
   end.
 
+(* [is_eof] is the comparison `err == io.EOF`: the class EOF stands for the value
+   io.EOF itself.  A failure of the source whose error merely wraps io.EOF, or
+   whose Is method answers io.EOF, is an ordinary source error (some [IO id]);
+   nothing in these definitions can tell such an id from any other.  The checker
+   as it was before fix F59 used errors.Is(err, io.EOF); [chk_update_is] is that
+   variant, with the set of source errors that errors.Is takes for io.EOF as a
+   parameter. *)
+Definition chk_update_is (eofish : cls -> bool) (srcErr : option cls) (r : rres) : option cls :=
+  match srcErr with
+  | Some _ => srcErr
+  | None => match snd r with
+            | Some c => if is_eof c || eofish c then None else Some c
+            | None => None
+            end
+  end.
+
 Record cstate := mkC { ccalls : nat; srcErr : option cls }.
 Definition c0 : cstate := mkC 0 None.
 
